@@ -416,14 +416,18 @@ def flip_validated(rec):
 
 
 def c11(ctx):
-    ctx.rule = ("TLC enumerates RFC 6902 lists: 6 operation kinds x 16 path pointers x 16 from pointers (members "
+    ctx.rule = ("TLC enumerates RFC 6902 lists: 6 operation kinds x 38 path pointers x 38 from pointers (members "
                 "publicKey / service, their elements and sub-members, the append pointer, sibling names sharing a "
-                "prefix, escaped tokens ~0 ~1, the empty member name and the root), single operations and lists of "
-                "two, and shows on the model that a validator inspecting path and from lets nothing through that "
+                "prefix, escaped tokens ~0 ~1, the empty member name, pointer text with escapes / quotes, members named like "
+                "those of resolved documents, and the root; operations whose members are respelled or superfluous), single "
+                "operations and lists of two (quick: with one harmless operation; thorough: all pairs over 16 core pointers), "
+                "and shows on the model that a validator inspecting path and from lets nothing through that "
                 "alters the protected members (GuardSuffices), while the negative configuration CheckFrom = FALSE "
                 "violates it. Each list is handed to the real patchvalidator.Validate; if it passes, to the real "
-                "ApplyPatches on two documents (with and without the sibling members); the publicKey and service "
-                "members before and after must be identical. The model's may-alter classification is cross-checked "
+                "ApplyPatches on four documents (with / without sibling members, without keys, without services), alone, behind "
+                "other patches and inside whole deltas judged by Parser.ValidateDelta; the publicKey and service members, the "
+                "library's own reading of them and the resolved document's key and service sections before and after must be "
+                "identical. The model's may-alter classification is cross-checked "
                 "against the real effect of every list applied without validation.")
     ctx.assumptions = ["the real validator may be stricter than the intended one (it refuses sibling names sharing "
                        "a prefix); it may not be laxer in effect", "an apply error or a contained panic leaves the "
